@@ -1,8 +1,6 @@
 // C08 harness: the real itoa<int>/itoa<unsigned>/fast_atoi<T> templates, modp_dtoa and fast_atof,
 // and the same conversions through Field<int,N> / Field<fp_type,N> (print + string ctor).
 //   itoa <v>                       -> "<text> <parsed>"
-//   itoaS <v>                      -> the same as itoa; used with the build that keeps the shift and
-//                                     signed-overflow sanitizers on (no -fwrapv)
 //   utoa <v>                       -> "<text> <parsed>"
 //   atoi <i|u|s> <term> <hex text> -> "<value>"
 //   dtoa <p> <hex16 bits>          -> "<text> <hex16 bits of fast_atof(text)>"
@@ -57,7 +55,7 @@ int main()
 			std::string kind;
 			is >> kind;
 			std::ostringstream os;
-			if (kind == "itoa" || kind == "itoaS")
+			if (kind == "itoa")
 			{
 				long long v; is >> v;
 				// exactly sized heap buffer: 11 characters + NUL for "-2147483648"
